@@ -322,10 +322,16 @@ func (d *driver) one(sc *scenario, r run, ri int) (obs []Ev) {
 	if err != nil {
 		panic(err)
 	}
-	s.SetMaxMessageSize(sc.max)
+	// every other run changes the limit after the stream has become active (lowered from twice the value)
+	if ri%2 == 1 {
+		s.SetMaxMessageSize(2 * sc.max)
+	} else {
+		s.SetMaxMessageSize(sc.max)
+	}
 	if err := s.VerifAttach(t); err != nil {
 		panic(err)
 	}
+	s.SetMaxMessageSize(sc.max)
 	rec := func(e Ev) {
 		obs = append(obs, d.emit(e))
 	}
